@@ -505,6 +505,26 @@ def add_pattern_effects(rng, cfg):
     return True
 
 
+# ---- overlapping root selectors x rules that write: every selector pass starts from the document as it was read
+# (no "expected": the proved model decides; a pass that sees the writes of an earlier pass is a disagreement)
+OVL_PROGS = ["{ $.n = $.n * 10; print $index, $.n }", "{ print $; $ = 0 }", "{ $.n++; print $.k, $.n }",
+             "BEGINFILE { $.items[0].n = 99; $[0] = \"bf\" } { print $ } ENDFILE { print $ }", "{ $.tags.push(\"x\"); print $.tags }",
+             "{ $ = {\"z\": $index}; print $ }", "{ $[0] = \"w\"; print }", "{ $.items[1].k = \"W\"; $[1][0] = 9; print }"]
+OVL_DOCS = ['{"items":[{"k":"a","n":1,"tags":[]},{"k":"b","n":2,"tags":["t"]}],"n":5,"k":"top","tags":[1]}', "[[1,2],[3,4]]", "[1,2,3]",
+            '{"items":[{"k":"a","n":1}]}\n[[5,6],[7]]']
+OVL_SELS = [["$.items", "$.items"], ["$", "$.items"], ["$.items", "$"], ["$", "$"], ["$.items[0]", "$.items"], ["$[0]", "$"],
+            ["$", "$[0]", "$"], ["$.n = 100", "$"], ["$.items[0].n = 7", "$.items", "$.items[0]"], ["$[1]", "$[1]", "$"]]
+
+
+def overlap_cases():
+    out = []
+    for prog in OVL_PROGS:
+        for doc in OVL_DOCS:
+            for sels in OVL_SELS:
+                out.append((prog, doc, sels))
+    return out
+
+
 class C02(Check):
     pid = "C02"
     props = ["C02_schedule.v"]
@@ -561,6 +581,12 @@ class C02(Check):
             self.cli.append(Case(cid + "!", None, dict(meta, role="the jqawk binary in a scratch directory"), True, ("cli",)))
             files = [(name, [texts[os.path.normpath(name)].encode()], False) for name in names]
             cases.append(Case(cid, run_case(cid, prog, files, sels, True), dict(meta, role="library run"), True))
+        # ---- overlapping selectors over a document the rules write to
+        for j, (prog, doc, sels) in enumerate(overlap_cases()):
+            cid = "v%d" % j
+            cases.append(Case(cid, run_case(cid, prog, [("d.json", [doc.encode()], False)], sels, True),
+                              {"prog": prog, "selectors": sels, "files": [["d.json", doc]], "family": "overlapping selectors, writing rules"},
+                              True, ("overlap",)))
         # ---- next / exit executed during the evaluation of a pattern
         k, made = 0, 0
         want_n = 700 if tier == "quick" else 20000
